@@ -81,7 +81,7 @@ def validate_trace(ctx, trace_path, what):
 def collect(ctx, res, props, what):
     """Fold driver results into ctx: violations of the listed properties only."""
     for v in res.get("violations") or []:
-        if v["prop"] in props:
+        if any(p in props for p in v["prop"].split(",")):
             ctx.violation("%s/%s/%s" % (what, res["variant"], v["key"]), v["text"], v["replay"])
         else:
             ctx.note("driver also reported %s %s (belongs to another property's check): %s" % (v["prop"], v["key"], v["text"][:160]))
